@@ -295,7 +295,7 @@ for P, pn in PARSERS.items():
     for N in range(1, 5):
         add(name="c08_name_utf8_%s_%d" % (pn, N), prop="C08", also=["C01"], crate="det",
             expr="crate::c08::name_utf8::<%d, %d>" % (N, P), unwind=10, unwindset=NAME_LOOPS, cap_s=2400, mem_gb=6,
-            est_s=120, family="name_utf8", funcs=NAME_FUNCS, witnesses=["non-ascii-string-parsed"],
+            est_s=120, family="name_utf8", funcs=NAME_FUNCS, witnesses=["non-ascii-string-parsed"] if N >= 2 else [],
             sched=("always" if pn in ("adc16", "padwing") else "pool") if N == 4 else "thorough", klass="core",
             params={"parser": pn, "bytes": N, "alphabet": "all valid UTF-8"})
 for N in (0, 1, 2, 3, 4, 5):
